@@ -18,14 +18,18 @@ for p in props:
         na.append({"property_id": p, "reason": m.NOT_APPLICABLE})
         continue
     served.append(p)
-    npf = len([k for k, c in m.CONTRACTS.items() if not k.startswith("__") and not c.get("assumed") and c.get("prop", p) == p])
+    pf = [k.split(":")[1] for k, c in m.CONTRACTS.items() if not k.startswith("__") and not c.get("assumed") and c.get("prop", p) == p]
+    npf = len(pf)
     level = m.LEVEL
-    tech = ("contract-based deductive verification: pyvc VCs generated from the real source, z3/cvc5; " if npf else "no function of this property is under a discharged deductive contract yet; ") + \
-           "bounded native execution of the contracts over an enumerated scope as labelled stand-in"
+    tech = (f"contract-based deductive verification: pyvc generates VCs from the current source of {', '.join(pf)} against sidecar contracts and discharges "
+            "them with z3 (cvc5 on unknown); functions outside the generator's reach: " if npf else
+            "no function of this property is within reach of the VC generator (see DESIGN.md §0a); deciding method: ") + \
+           "bounded native execution of the contracts against the independent executable specification over an enumerated scope (labelled stand-in, never counted as proved)"
     checks.append({
         "property_id": p, "quick_cmd": f"./vcheck {p} --tier quick", "thorough_cmd": f"./vcheck {p} --tier thorough",
         "evidence_file": f"evidence/{p}.json", "replay_cmd_template": "./vcheck --replay {path}", "engine": "pyvc",
-        "level_claimed": {"category": level, "text": m.EXPLANATION, "design_ref": f"DESIGN.md §4 {p}"},
+        "level_claimed": {"category": level, "text": (f"deductive (all inputs): {', '.join(pf)} — see DESIGN.md §0a for what each contract states. " if npf else "") + m.EXPLANATION,
+                          "design_ref": f"DESIGN.md §0a and §4 {p}"},
         "level_note": "trusted: " + "; ".join(m.TRUSTED) + " | assumptions: " + "; ".join(m.ASSUMPTIONS),
         "technique": tech})
 man = {
